@@ -8,7 +8,7 @@ lists `fs` (arbitrary bytes in names and values, any length), all limits, both d
 answers `ext` of `strings.ToLower` on non-ASCII names.
 -/
 import Uquic.Proofs.FieldsWriter3
-import Uquic.Proofs.FieldsTrailers
+import Uquic.Proofs.FieldsTrailerWriter
 
 namespace Uquic.Props.C19
 open Uquic.Model.H3.Fields Uquic.Model.H3.Writer Uquic.Gen.H3Fields Uquic.Proofs.Fields
@@ -123,6 +123,14 @@ theorem accept_complete (ext : List Nat → Bool) (isReq : Bool) (lim : Int) (fs
     (wf : WellFormed isReq lim fs) (hfit : ClFits fs) : ∃ h, parseHeaders ext isReq lim fs = .ok h :=
   accept_complete_of_wf ext isReq lim fs
     { wf with cl_numeric := fun f hf hn => ⟨Or.inr rfl, (wf.cl_numeric f hf hn).2⟩ } hfit
+
+/-- the hypotheses of `accept_complete` are satisfiable by a non-trivial section -/
+example : WellFormed true 1000 [(nMethod, B "POST"), (nScheme, B "https"), (nAuthority, B "a"), (nPath, B "/x"),
+      (B "cookie", B "a=b"), (nContentLength, B "12"), (nTe, vTrailers)] ∧
+    ClFits [(nMethod, B "POST"), (nScheme, B "https"), (nAuthority, B "a"), (nPath, B "/x"),
+      (B "cookie", B "a=b"), (nContentLength, B "12"), (nTe, vTrailers)] :=
+  ⟨⟨by decide, by decide, by decide, by decide, by decide, by decide, by decide, by decide, by decide, by decide⟩,
+   by unfold ClFits; decide⟩
 
 /-! ## 4. writer_parser_agree -/
 
@@ -251,6 +259,31 @@ theorem writer_te_witness : ∃ w fs, encodeHeaders defaultUserAgent w = .ok fs 
     errOf (parseHeaders (fun _ => true) true 100000 fs) = some .te :=
   ⟨{ method := B "GET", proto := B "HTTP/1.1", puny := some (B "example.com"), reqURI := B "/", scheme := B "https",
      headers := [(B "Te", [B "gzip"])], trailerKeys := [], contentLength := 0, gzip := false }, _, rfl, by decide⟩
+
+/-- For every trailer map of a valid net/http message (token keys, values without forbidden bytes, no
+    connection-specific key — `Upgrade` is the one such key httpguts.ValidTrailerHeader lets through,
+    see the witness below), whatever writeTrailers emits is accepted by parseTrailers under every limit
+    ≥ its size, is a well-formed trailer section, and decodes to exactly the emitted fields with
+    canonicalised keys. -/
+theorem trailer_writer_parser_agree (ext : List Nat → Bool) (t : List (List Nat × List (List Nat))) (fs : List Field)
+    (hv : ValidTrailers t) (hw : writeTrailers t = some fs) (lim : Int)
+    (hlim : Uquic.Spec.H3Fields.sectionSize fs ≤ lim) :
+    parseTrailers ext lim fs = .ok (fs.map (fun f => (canonKey f.1, f.2))) ∧
+    Uquic.Spec.H3Fields.TrailersWellFormed lim fs := by
+  have hok := writeTrailers_ok ext t fs hw hv
+  have hrun := runTrailers_ok ext fs { limit := lim } hok hlim
+  have hp : parseTrailers ext lim fs = .ok (fs.map (fun f => (canonKey f.1, f.2))) := by
+    simp only [parseTrailers, parseTrailersQ, hrun, Bool.false_eq_true, if_false, List.nil_append]
+  have h0 : 0 ≤ lim := by have := sectionSize_nonneg fs; omega
+  exact ⟨hp, (trailers_sound_of_ok ext lim h0 fs false _ hp).1⟩
+
+example : writeTrailers [(B "X-Checksum", [B "abc"]), (B "Content-Length", [B "3"]), (B "Etag", [])]
+    = some [(B "x-checksum", B "abc")] := by decide
+
+/-- observation behind the hypothesis "no connection-specific key": a trailer `Upgrade` is emitted
+    (it is not in httpguts' badTrailer list) and rejected by parseTrailers -/
+example : ∃ fs, writeTrailers [(B "Upgrade", [B "x"])] = some fs ∧
+    errOf (parseTrailers (fun _ => true) 1000 fs) = some .forbiddenName := ⟨_, rfl, by decide⟩
 
 /-! ## 2. reject_maps_to_error -/
 
